@@ -125,9 +125,10 @@ func drawC05(t *rapid.T) C05Case {
 		MaxActions: rapid.SampledFrom([]int{6, 12, 25}).Draw(t, "maxActions"),
 		Accruals:   rapid.IntRange(0, 2).Draw(t, "accruals") == 0,
 		Assertions: true, Closes: true, Perf: true,
-		Prices:  rapid.SampledFrom([]int{0, 1, 1}).Draw(t, "prices"),
-		MaxDec:  rapid.SampledFrom([]int{2, 4, 8}).Draw(t, "maxDec"),
-		Unicode: rapid.IntRange(0, 5).Draw(t, "unicode") == 0,
+		Prices:    rapid.SampledFrom([]int{0, 1, 1}).Draw(t, "prices"),
+		MaxDec:    rapid.SampledFrom([]int{2, 4, 8}).Draw(t, "maxDec"),
+		Unicode:   rapid.IntRange(0, 5).Draw(t, "unicode") == 0,
+		WideDates: true,
 	}
 	j := gen.GenJournal(t, cfg)
 	wide := rapid.IntRange(0, 7).Draw(t, "wide") == 0
